@@ -10,6 +10,15 @@ from typing_extensions import Self
 from dataclasses import field
 
 
+def _content_key(ballot: Ballot) -> tuple:
+    """
+    Hashable (ranking, scores) content of a ballot, ignoring weight, id and voter set.
+    """
+    ranking = tuple(ballot.ranking) if ballot.ranking else ()
+    scores = frozenset(ballot.scores.items()) if ballot.scores else frozenset()
+    return (ranking, scores)
+
+
 @dataclass(frozen=True, config=ConfigDict(arbitrary_types_allowed=True))
 class PreferenceProfile:
     """
@@ -344,23 +353,23 @@ class PreferenceProfile:
         Returns:
             PreferenceProfile: A PreferenceProfile object with condensed ballot list.
         """
-        weight_accumulator = {}
+        # Key the accumulator by ballot content. Ballot.__eq__ ignores fields that are unset
+        # on its left operand, so using Ballots as keys made the result depend on ballot order.
+        weight_accumulator: dict = {}
+        contents: dict = {}
 
-        # weightless allows for id of ballots with matching ranking/scores
         for ballot in self.ballots:
-            weightless_ballot = (
-                Ballot(ranking=ballot.ranking, weight=Fraction(0), scores=ballot.scores)
-                if ballot.scores
-                else Ballot(ranking=ballot.ranking, weight=Fraction(0))
-            )
-            if weightless_ballot not in weight_accumulator:
-                weight_accumulator[weightless_ballot] = Fraction(0)
+            key = _content_key(ballot)
+            if key not in weight_accumulator:
+                weight_accumulator[key] = Fraction(0)
+                contents[key] = ballot
 
-            weight_accumulator[weightless_ballot] += ballot.weight
+            weight_accumulator[key] += ballot.weight
 
         new_ballot_list = [Ballot()] * len(weight_accumulator)
         i = 0
-        for ballot, weight in weight_accumulator.items():
+        for key, weight in weight_accumulator.items():
+            ballot = contents[key]
             if ballot.scores:
                 new_ballot_list[i] = Ballot(
                     ranking=ballot.ranking, scores=ballot.scores, weight=weight
@@ -380,13 +389,9 @@ class PreferenceProfile:
             return False
         pp_1 = self.condense_ballots()
         pp_2 = other.condense_ballots()
-        for b in pp_1.ballots:
-            if b not in pp_2.ballots:
-                return False
-        for b in pp_2.ballots:
-            if b not in pp_1.ballots:
-                return False
-        return True
+        return {_content_key(b): b.weight for b in pp_1.ballots} == {
+            _content_key(b): b.weight for b in pp_2.ballots
+        }
 
     def _sum_row(self, df: pd.DataFrame) -> pd.DataFrame:
         """
